@@ -1784,6 +1784,195 @@ def gen_read_groups():
 
 
 
+# ----------------------------------------------------------------------------------------------
+# C08: multimapper resolution tables (enum of strategies, the hard-wired CLI strategy, the fields of
+# BasicReadAssignment.__eq__, where `suspended` is assigned, the skip guards of loader / intron graph)
+
+def _is_rat_suspended(node):
+    return (isinstance(node, ast.Attribute) and node.attr == "suspended" and isinstance(node.value, ast.Name)
+            and node.value.id == "ReadAssignmentType")
+
+
+def _mentions_multimapper_operand(test):
+    """test is `x.multimapper` or an `or` chain with `x.multimapper` as a direct operand"""
+    ops = test.values if (isinstance(test, ast.BoolOp) and isinstance(test.op, ast.Or)) else [test]
+    return any(isinstance(o, ast.Attribute) and o.attr == "multimapper" for o in ops)
+
+
+def _first_loop_skips_multimapper(fn):
+    """the first `for` of fn starts with `if <... or a.multimapper or ...>: continue`"""
+    for n in ast.walk(fn):
+        if isinstance(n, ast.For):
+            first = n.body[0] if n.body else None
+            return (isinstance(first, ast.If) and _mentions_multimapper_operand(first.test)
+                    and len(first.body) == 1 and isinstance(first.body[0], ast.Continue) and not first.orelse)
+    raise TranslationError("%s: no for loop" % fn.name)
+
+
+def gen_resolver():
+    out = ["-- GENERATED by harness/translate.py from src/multimap_resolver.py, src/isoform_assignment.py, "
+           "src/dataset_processor.py, src/intron_graph.py, isoquant.py -- do not edit",
+           "namespace IsoVerif.Gen", ""]
+    info = {}
+    # 1. the strategy enum
+    cls = find_def(parse("src/multimap_resolver.py"), "MultimapResolvingStrategy")
+    mem = enum_members(cls)
+    info["MultimapResolvingStrategy"] = mem
+    out.append("inductive MultimapResolvingStrategy where")
+    for m, _ in mem:
+        out.append("  | %s" % lean_ident(m))
+    out.append("  deriving DecidableEq, Repr, Inhabited\n")
+    out.append("namespace MultimapResolvingStrategy")
+    out.append("def all : List MultimapResolvingStrategy := [%s]" % ", ".join("." + lean_ident(m) for m, _ in mem))
+    out.append("def name : MultimapResolvingStrategy → String")
+    for m, _ in mem:
+        out.append("  | .%s => \"%s\"" % (lean_ident(m), m))
+    out.append("def ofName? (s : String) : Option MultimapResolvingStrategy := all.find? (fun x => x.name == s)")
+    out.append("end MultimapResolvingStrategy\n")
+    # 2. the strategy the command line hard-wires
+    iq = parse("isoquant.py")
+    vals = []
+    for n in ast.walk(iq):
+        if isinstance(n, ast.Assign) and len(n.targets) == 1 and isinstance(n.targets[0], ast.Attribute) \
+                and n.targets[0].attr == "multimap_strategy" and isinstance(n.value, ast.Constant) \
+                and isinstance(n.value.value, str):
+            vals.append(n.value.value)
+    if len(vals) != 1:
+        raise TranslationError("isoquant.py: expected exactly one `args.multimap_strategy = \"...\"`, found %s" % vals)
+    info["cli_multimap_strategy"] = vals[0]
+    out.append('def cli_multimap_strategy : String := "%s"\n' % vals[0])
+    # 3. fields compared by BasicReadAssignment.__eq__
+    eqf = find_def(parse("src/isoform_assignment.py"), "__eq__", "BasicReadAssignment")
+    rets = [n for n in ast.walk(eqf) if isinstance(n, ast.Return)]
+    fields = None
+    for r in rets:
+        v = r.value
+        if isinstance(v, ast.BoolOp) and isinstance(v.op, ast.And):
+            fields = []
+            for c in v.values:
+                if (isinstance(c, ast.Compare) and len(c.ops) == 1 and isinstance(c.ops[0], ast.Eq)
+                        and isinstance(c.left, ast.Attribute) and isinstance(c.comparators[0], ast.Attribute)
+                        and c.left.attr == c.comparators[0].attr
+                        and isinstance(c.left.value, ast.Name) and c.left.value.id == "self"
+                        and isinstance(c.comparators[0].value, ast.Name) and c.comparators[0].value.id == "other"):
+                    fields.append(c.left.attr)
+                else:
+                    raise TranslationError("BasicReadAssignment.__eq__: unsupported conjunct")
+        elif isinstance(v, ast.Constant) and v.value is False:
+            continue
+        else:
+            raise TranslationError("BasicReadAssignment.__eq__: unsupported return")
+    if fields is None:
+        raise TranslationError("BasicReadAssignment.__eq__: no conjunction of field equalities found")
+    info["basic_eq_fields"] = fields
+    out.append("/-- fields compared (with `==`, conjunctively) by BasicReadAssignment.__eq__ -/")
+    out.append("def basic_eq_fields : List String := [%s]\n" % ", ".join('"%s"' % f for f in fields))
+    # 4. where `ReadAssignmentType.suspended` is assigned to something
+    sites = []
+    srcdir = os.path.join(REPO, "src")
+    for fn in sorted(os.listdir(srcdir)) + ["../isoquant.py"]:
+        if not fn.endswith(".py"):
+            continue
+        rel = "isoquant.py" if fn.startswith("..") else "src/" + fn
+        tree = parse(rel)
+        for n in ast.walk(tree):
+            if isinstance(n, ast.Assign) and _is_rat_suspended(n.value):
+                for t in n.targets:
+                    tgt = t.attr if isinstance(t, ast.Attribute) else (t.id if isinstance(t, ast.Name) else "?")
+                    sites.append("%s:%s" % (rel, tgt))
+    sites = sorted(set(sites))
+    info["suspended_assigned_at"] = sites
+    out.append("/-- every `x = ReadAssignmentType.suspended` in the sources: \"file:target\" -/")
+    out.append("def suspended_assigned_at : List String := [%s]\n" % ", ".join('"%s"' % x for x in sites))
+    # 5. loader: `elif resolved_assignment.assignment_type == ReadAssignmentType.suspended: continue`
+    #    and `if not resolved_assignment: ... continue`
+    gn = find_def(parse("src/dataset_processor.py"), "get_next", "ReadAssignmentLoader")
+    skip_susp = False
+    skip_missing = False
+    for n in ast.walk(gn):
+        if isinstance(n, ast.If):
+            t = n.test
+            ends_continue = bool(n.body) and isinstance(n.body[-1], ast.Continue)
+            if (isinstance(t, ast.Compare) and len(t.ops) == 1 and isinstance(t.ops[0], ast.Eq)
+                    and isinstance(t.left, ast.Attribute) and t.left.attr == "assignment_type"
+                    and _is_rat_suspended(t.comparators[0]) and ends_continue):
+                skip_susp = True
+            if (isinstance(t, ast.UnaryOp) and isinstance(t.op, ast.Not) and isinstance(t.operand, ast.Name)
+                    and t.operand.id == "resolved_assignment" and ends_continue):
+                skip_missing = True
+    info["loader"] = {"skips_suspended": skip_susp, "skips_missing": skip_missing}
+    out.append("def loader_skips_suspended : Bool := %s" % ("true" if skip_susp else "false"))
+    out.append("def loader_skips_missing : Bool := %s\n" % ("true" if skip_missing else "false"))
+    # 6. consumers of the model-construction stage that skip `multimapper` records in their first loop
+    guards = []
+    ig = parse("src/intron_graph.py")
+    for cls_, meth in [("IntronCollector", "collect_introns"), ("IntronGraph", "construct"),
+                       ("IntronGraph", "collect_terminal_positions")]:
+        guards.append(("%s.%s" % (cls_, meth), _first_loop_skips_multimapper(find_def(ig, meth, cls_))))
+    gm = parse("src/graph_based_model_construction.py")
+    for n in gm.body:
+        if isinstance(n, ast.ClassDef):
+            for m in n.body:
+                if isinstance(m, ast.FunctionDef) and m.name == "fill" and any(
+                        isinstance(a, ast.arg) and a.arg == "read_assignments" for a in m.args.args):
+                    guards.append(("%s.fill" % n.name, _first_loop_skips_multimapper(m)))
+    info["multimapper_guards"] = guards
+    out.append("/-- (function, its first loop starts with `if ... a.multimapper ...: continue`) -/")
+    out.append("def multimapper_guards : List (String × Bool) := [%s]\n"
+               % ", ".join('("%s", %s)' % (k, "true" if v else "false") for k, v in guards))
+    out.append("end IsoVerif.Gen\n")
+    return "\n".join(out), info
+
+
+
+
+# ----------------------------------------------------------------------------------------------
+# C16: CIGAR operation classes of src/common.py (CigarEvent.get_match_events / get_ins_del_match_events)
+# and the polyA finder constants
+
+def gen_cigar_classes():
+    tree = parse("src/common.py")
+    out = ["-- GENERATED by harness/translate.py from /repo/src/common.py, /repo/src/polya_finder.py, /repo/isoquant.py -- do not edit",
+           "import IsoVerif.Gen.Enums", "namespace IsoVerif.Gen", ""]
+    info = {}
+    for meth, lname in [("get_match_events", "cigar_match_events"),
+                        ("get_ins_del_match_events", "cigar_ins_del_match_events")]:
+        fn = find_def(tree, meth, "CigarEvent")
+        rets = [n for n in ast.walk(fn) if isinstance(n, ast.Return)]
+        if len(rets) != 1 or len(fn.body) != 1:
+            raise TranslationError("CigarEvent.%s: expected a single return statement" % meth)
+        ms = attr_members(rets[0].value, "cls")
+        info[lname] = ms
+        out.append("def %s : List CigarEvent := %s" % (lname, lean_list("CigarEvent", ms)))
+        out.append("def CigarEvent.in_%s (k : CigarEvent) : Bool := %s.contains k\n" % (lname, lname))
+    # PolyAFinder defaults and the values isoquant.py passes (must agree; window and fraction as a ratio num/den)
+    from fractions import Fraction
+    pf = find_def(parse("src/polya_finder.py"), "__init__", "PolyAFinder")
+    names = [a.arg for a in pf.args.args]
+    if names != ["self", "window_size", "min_polya_fraction"] or len(pf.args.defaults) != 2:
+        raise TranslationError("PolyAFinder.__init__ signature changed: %s" % names)
+    dw, dfrac = [d.value for d in pf.args.defaults]
+    iq = parse("isoquant.py")
+    vals = {}
+    for n in ast.walk(find_def(iq, "set_matching_options")):
+        if isinstance(n, ast.Assign) and len(n.targets) == 1 and isinstance(n.targets[0], ast.Attribute) \
+                and n.targets[0].attr in ("polya_window", "polya_fraction") and isinstance(n.value, ast.Constant):
+            vals[n.targets[0].attr] = n.value.value
+    if vals.get("polya_window") != dw or vals.get("polya_fraction") != dfrac:
+        raise TranslationError("polyA window/fraction: isoquant.py %s vs PolyAFinder defaults %s" % (vals, (dw, dfrac)))
+    fr = Fraction(str(dfrac))
+    if not isinstance(dw, int) or float(fr) != dfrac:
+        raise TranslationError("polyA window/fraction not exact")
+    info.update({"polya_window": dw, "polya_fraction": [fr.numerator, fr.denominator]})
+    out.append("def polya_window : Nat := %d" % dw)
+    out.append("def polya_fraction_num : Nat := %d" % fr.numerator)
+    out.append("def polya_fraction_den : Nat := %d" % fr.denominator)
+    out.append("\nend IsoVerif.Gen\n")
+    return "\n".join(out), info
+
+
+
+
 GENERATORS = [("Prims", gen_prims), ("Enums", gen_enums), ("EventClasses", gen_event_classes),
               ("Strategies", gen_strategies), ("Constants", gen_constants), ("SharedState", gen_shared_state),
               ("SetSites", gen_set_sites),            # C06
@@ -1792,6 +1981,8 @@ GENERATORS = [("Prims", gen_prims), ("Enums", gen_enums), ("EventClasses", gen_e
               ("CacheProtocol", gen_cache_protocol),   # C20
               ("SampleState", gen_sample_state),       # C10
               ("ReadGroups", gen_read_groups),         # C09
+              ("CigarClasses", gen_cigar_classes),    # C16
+              ("Resolver", gen_resolver),             # C08
               ]
 
 
